@@ -6,6 +6,7 @@ package balancer
 
 //@ func (r *RoundRobinSelector) Select
 //@   property C03 C06
+//@   refines domain.EndpointSelector.Select
 //@   requires allNonNil(endpoints)
 //@   modifies r.counter
 //@   atomic-once r.counter
@@ -22,36 +23,43 @@ package balancer
 
 //@ func (r *RoundRobinSelector) IncrementConnections
 //@   property C06 C19
+//@   refines domain.EndpointSelector.IncrementConnections
 //@   modifies ghost(endpoint).gauge
 //@   ensures ghost(endpoint).gauge == old(ghost(endpoint).gauge) + 1
 
 //@ func (r *RoundRobinSelector) DecrementConnections
 //@   property C06 C19
+//@   refines domain.EndpointSelector.DecrementConnections
 //@   modifies ghost(endpoint).gauge
 //@   ensures ghost(endpoint).gauge == old(ghost(endpoint).gauge) - 1
 
 //@ func (p *PrioritySelector) IncrementConnections
 //@   property C06 C19
+//@   refines domain.EndpointSelector.IncrementConnections
 //@   modifies ghost(endpoint).gauge
 //@   ensures ghost(endpoint).gauge == old(ghost(endpoint).gauge) + 1
 
 //@ func (p *PrioritySelector) DecrementConnections
 //@   property C06 C19
+//@   refines domain.EndpointSelector.DecrementConnections
 //@   modifies ghost(endpoint).gauge
 //@   ensures ghost(endpoint).gauge == old(ghost(endpoint).gauge) - 1
 
 //@ func (l *LeastConnectionsSelector) IncrementConnections
 //@   property C06 C19
+//@   refines domain.EndpointSelector.IncrementConnections
 //@   modifies ghost(endpoint).gauge
 //@   ensures ghost(endpoint).gauge == old(ghost(endpoint).gauge) + 1
 
 //@ func (l *LeastConnectionsSelector) DecrementConnections
 //@   property C06 C19
+//@   refines domain.EndpointSelector.DecrementConnections
 //@   modifies ghost(endpoint).gauge
 //@   ensures ghost(endpoint).gauge == old(ghost(endpoint).gauge) - 1
 
 //@ func (l *LeastConnectionsSelector) Select
 //@   property C03 C06
+//@   refines domain.EndpointSelector.Select
 //@   requires allNonNil(endpoints)
 //@   loop 1 invariant len(routable) <= i$1
 //@   loop 1 invariant forall k int :: 0 <= k && k < len(routable) ==> isRoutable(routable[k].Status) && (exists j int :: 0 <= j && j < i$1 && routable[k] == endpoints[j])
@@ -73,6 +81,7 @@ package balancer
 
 //@ func (p *PrioritySelector) Select
 //@   property C03 C06
+//@   refines domain.EndpointSelector.Select
 //@   requires allNonNil(endpoints)
 //@   loop 1 invariant len(routable) <= i$1
 //@   loop 1 invariant forall k int :: 0 <= k && k < len(routable) ==> isRoutable(routable[k].Status) && (exists j int :: 0 <= j && j < i$1 && routable[k] == endpoints[j])
